@@ -19,7 +19,9 @@ vars == <<ia, ib, ic>>
 
 VS  == SetToSeq(Vers)
 N   == Len(VS)
-Tab == [x \in 1..N |-> [y \in 1..N |-> VerCmp(VS[x], VS[y])]]
+\* (TLCEval: TLC keeps [x \in S |-> e] as a lazy function and re-evaluates e on every
+\*  application; the tables are computed once)
+Tab == TLCEval([x \in 1..N |-> TLCEval([y \in 1..N |-> VerCmp(VS[x], VS[y])])])
 
 (* ---- growth of a version by one element ---- *)
 \* (structural tests: w is v plus one trailing element / a letter / a larger revision)
@@ -33,8 +35,8 @@ GrowRev(v, w)  == VSameBut(v, w, "rev") /\ VNatCmp(w.rev, v.rev) = 1
 Up(v, w)   == GrowComp(v, w) \/ GrowSufP(v, w) \/ GrowLet(v, w) \/ GrowRev(v, w)
 Down(v, w) == GrowSufM(v, w)
 \* successor tables, computed once
-UpOf   == [x \in 1..N |-> {y \in 1..N : Up(VS[x], VS[y])}]
-DownOf == [x \in 1..N |-> {y \in 1..N : Down(VS[x], VS[y])}]
+UpOf   == TLCEval([x \in 1..N |-> TLCEval({y \in 1..N : Up(VS[x], VS[y])})])
+DownOf == TLCEval([x \in 1..N |-> TLCEval({y \in 1..N : Down(VS[x], VS[y])})])
 
 Init == ia \in 1..N /\ ib \in 1..N /\ ic \in 1..N
 StepUp   == ia' \in UpOf[ia]   /\ UNCHANGED <<ib, ic>>
